@@ -66,6 +66,62 @@ def run(ctx):
             pipeline(ctx, prog, bot, None)
 
 
+def _match(pat, term, var):
+    """binding of SYM(var) that makes the pattern equal to the term, or None"""
+    if pat == SYM(var):
+        return term
+    if pat[0] != term[0]:
+        return None
+    if pat[0] == 'adt' and pat[1:4] == term[1:4] and len(pat[4]) == len(term[4]):
+        subs = [(_match(a, b, var) if a != b else Ellipsis) for a, b in zip(pat[4], term[4])]
+    elif pat[0] == 'tuple' and len(pat[1]) == len(term[1]):
+        subs = [(_match(a, b, var) if a != b else Ellipsis) for a, b in zip(pat[1], term[1])]
+    else:
+        return None
+    found = [x for x in subs if x is not Ellipsis]
+    if any(x is None for x in found) or len({repr(x) for x in found}) != 1:
+        return None
+    return found[0]
+
+
+_ALIASES = {}
+
+
+def evaluator_aliases(prog):
+    """crate-private functions the root evaluators are thin wrappers of: when `Node::eval_with_context(self, context)` is, on its single
+    path, exactly `G(self, X(context))` for a private G (a walk shared between the shared-reference and the exclusive-reference evaluator),
+    a call `G(n, X(c))` made by an entry point is a call of that evaluator on (n, c)"""
+    key = id(prog)
+    if key in _ALIASES:
+        return _ALIASES[key]
+    out = {}
+    for name in ('eval_with_context', 'eval_with_context_mut'):
+        e = prog.fn('tree::Node::<NumericTypes>::' + name)
+        if e is None:
+            continue
+
+        def hook(it, fn, t, args):
+            c = t['callee']
+            if c.get('local'):
+                return ('app', short(c['def']), tuple(args))
+            return None
+        try:
+            ps = Interp(prog, hook=hook).paths(e, [SYM('self'), SYM('context')])
+        except Budget:
+            continue
+        if len(ps) != 1 or ps[0][0][0] != 'app' or len(ps[0][0][2]) != 2 or ps[0][0][2][0] != SYM('self'):
+            continue
+        g = ps[0][0][1]
+        gf = [f_ for f_ in prog.fns if short(f_.path) == g]
+        if len(gf) != 1 or not str(gf[0].j.get('vis') or '').startswith('Restricted') or g.endswith('::' + name):
+            continue
+        from absint import has_subterm
+        if has_subterm(ps[0][0][2][1], SYM('context')):
+            out.setdefault(g, []).append(('tree::Node::' + name, ps[0][0][2][1]))
+    _ALIASES[key] = out
+    return out
+
+
 OPAQUE_PREFIX = ('error::',)
 FRESH = ('app', 'context::HashMapContext::new', ())
 
@@ -84,6 +140,7 @@ def entry(ctx, prog, f, g, ty, mut, has_ctx, worlds):
         stages = [('tokenize-fails', ERR(SYM('token_error')), None), ('parse-fails', OK(SYM('tokens')), ERR(SYM('tree_error')))]
     cases = [(n, tv, trv, None, None) for n, tv, trv in stages] + [(wn, OK(SYM('tokens')), OK(SYM('tree')), wn, wv) for wn, wv in worlds]
     n_ok = 0
+    aliases = evaluator_aliases(prog)
     for cname, tok_w, tree_w, wname, wval in cases:
         calls = []
 
@@ -104,6 +161,12 @@ def entry(ctx, prog, f, g, ty, mut, has_ctx, worlds):
             if path_endswith(d, 'tree::Node::eval_with_context') or path_endswith(d, 'tree::Node::eval_with_context_mut'):
                 calls.append((d, tuple(args)))
                 return wval if wval is not None else ('app', d, tuple(args))
+            if d in aliases and len(args) == 2:
+                for ename, pat in aliases[d]:
+                    b = _match(pat, args[1], 'context')
+                    if b is not None:
+                        calls.append((ename, (args[0], b)))
+                        return wval if wval is not None else ('app', ename, (args[0], b))
             if d.startswith(OPAQUE_PREFIX) or d == 'context::HashMapContext::new' or c['name'] == 'clone':
                 return ('app', d, tuple(args))
             return None
@@ -155,7 +218,7 @@ def entry(ctx, prog, f, g, ty, mut, has_ctx, worlds):
                 good = (ret[0] == 'adt' and ret[3] == 'Ok' and ret[4][0][0] == 'app' and ret[4][0][1].endswith('int_as_float') and ret[4][0][2] == (SYM('payload_Int'),))
                 wtxt = 'Ok(int_as_float(payload))'
             else:
-                good = ret == want
+                good = norm_expected(prog, ret) == norm_expected(prog, want)
                 wtxt = fmt(want)
         if good:
             n_ok += 1
@@ -164,6 +227,36 @@ def entry(ctx, prog, f, g, ty, mut, has_ctx, worlds):
             ctx.violation(rule, inst, 'projection:' + cname, 'case %s must yield %s, the entry point returns %s' % (cname, wtxt, fmt(ret)), span=f.span)
     if n_ok == len(cases):
         ctx.sample(dict(instance=inst, evaluator=evaluator, variant=variant or ('Int|Float' if ty else 'untyped'), context='given' if has_ctx else 'fresh HashMapContext::new()', verdict='ok', span=f.span))
+
+
+_EXPECTED_CACHE = {}
+
+
+def norm_expected(prog, v):
+    """`EvalexprError::expected_x(value)` and the error variant it builds are the same value: constructor helpers of the error module
+    that were kept opaque are replaced by what they return (single path, no further calls), so it does not matter whether a wrapper
+    calls the helper or constructs the variant itself"""
+    k = v[0]
+    if k == 'adt':
+        return (v[0], v[1], v[2], v[3], tuple(norm_expected(prog, x) for x in v[4]))
+    if k == 'tuple':
+        return ('tuple', tuple(norm_expected(prog, x) for x in v[1]))
+    if k == 'proj':
+        return ('proj', norm_expected(prog, v[1]), v[2])
+    if k == 'app':
+        args = tuple(norm_expected(prog, x) if isinstance(x, tuple) else x for x in v[2])
+        nm = v[1]
+        if nm.startswith('error::EvalexprError::expected_') or nm.startswith('error::EvalexprError::<NumericTypes>::expected_'):
+            g = prog.fn(nm) or prog.fn(nm.replace('error::EvalexprError::', 'error::EvalexprError::<NumericTypes>::'))
+            if g is not None and g.arg_count == len(args):
+                try:
+                    ps = Interp(prog, max_depth=2).paths(g, list(args))
+                except Budget:
+                    ps = []
+                if len(ps) == 1 and ps[0][0][0] == 'adt' and not any(not e[0].startswith('<') for e in ps[0][1]):
+                    return ps[0][0]
+        return ('app', nm, args)
+    return v
 
 
 def base_name(g, mut):
@@ -221,7 +314,7 @@ def typed(ctx, prog, f, g, ty, mut, worlds):
             good = (ret[0] == 'adt' and ret[3] == 'Ok' and ret[4][0][0] == 'app' and ret[4][0][1].endswith('int_as_float') and ret[4][0][2] == (SYM('payload_Int'),))
             wtxt = 'Ok(int_as_float(payload))'
         else:
-            good = ret == want
+            good = norm_expected(prog, ret) == norm_expected(prog, want)
             wtxt = fmt(want)
         if good:
             n_ok += 1
@@ -264,7 +357,11 @@ def pipeline(ctx, prog, f, mut):
     def hook(it, fn, t, args):
         c = t['callee']
         if c.get('local'):
-            return ('app', short(c['def']), tuple(args))
+            d = short(c['def'])
+            # the three stages are named terms; a private helper between the entry point and a stage (`parse(string)?`) is followed
+            if d in ('token::tokenize', 'tree::tokens_to_operator_tree') or path_endswith(d, 'tree::Node::eval_with_context') or path_endswith(d, 'tree::Node::eval_with_context_mut') \
+                    or d.startswith(OPAQUE_PREFIX) or not str((prog.by_path.get(c['def']) or f).j.get('vis') or '').startswith('Restricted'):
+                return ('app', d, tuple(args))
         return None
     it = Interp(prog, hook=hook)
     nargs = 1 if mut is None else 2
